@@ -92,7 +92,15 @@ fn cmd_check(args: &[String]) {
 
     if let Some((idx, sc, class, detail)) = res.violation.take() {
         println!("violation at scenario index {idx} (seed {}), class={class}; minimising ...", sc.seed);
-        let (mut min, evals) = runner::minimise(p, &sc, &class);
+        // minimisation runs under a time limit (a candidate may hang the library)
+        let (tx, rx) = std::sync::mpsc::channel();
+        {
+            let (sc2, class2) = (sc.clone(), class.clone());
+            std::thread::spawn(move || {
+                let _ = tx.send(runner::minimise(p, &sc2, &class2));
+            });
+        }
+        let (mut min, evals) = rx.recv_timeout(std::time::Duration::from_secs(120)).unwrap_or((sc.clone(), 0));
         min.class = class.clone();
         let mut st = Stats::default();
         let detail_min = match p.check(&min, &mut st) {
@@ -191,6 +199,19 @@ fn cmd_replay(args: &[String]) {
                 exit(0);
             }
         }
+    }
+    {
+        // watchdog for the replay itself
+        let (path, class, pid) = (path.clone(), sc.class.clone(), p.id());
+        std::thread::spawn(move || {
+            std::thread::sleep(std::time::Duration::from_secs(10));
+            if class == "hang" {
+                println!("VIOLATION property={pid} replay={path}\n  class=hang\n  the library did not return to the executor within 10 s");
+                exit(1);
+            }
+            println!("replay: no result within 10 s (the library hangs on this scenario; expected class {class})");
+            exit(if pid == "C05" { 1 } else { 2 });
+        });
     }
     let mut st = Stats::default();
     match p.check(&sc, &mut st) {
